@@ -156,11 +156,11 @@ MeanSteps(ts, m, menv) ==
     MeanSteps(Tail(ts),
       CASE t.k = "From" -> [m EXCEPT !.ord = IF t.sub # <<>> THEN MeanPipe(t.sub, menv).ord
                                              ELSE IF t.src \in DOMAIN menv.ctes THEN menv.ctes[t.src] ELSE <<>>,
-                                     !.prevsort = <<>>, !.expl = FALSE]
-        [] t.k = "Sort" -> [m EXCEPT !.ord = CanonKeys(t.keys, menv.R, menv.A), !.prevsort = CanonKeys(t.keys, menv.R, menv.A), !.expl = TRUE]
+                                     !.prevsort = <<>>, !.expl = FALSE, !.reset = FALSE]
+        [] t.k = "Sort" -> [m EXCEPT !.ord = CanonKeys(t.keys, menv.R, menv.A), !.prevsort = CanonKeys(t.keys, menv.R, menv.A), !.expl = TRUE, !.reset = FALSE]
         \* group and aggregate reset the order; so does append; what order a right / full join leaves is not said
-        [] t.k \in {"Aggregate", "Distinct", "Union"} -> [m EXCEPT !.ord = <<>>, !.prevsort = <<>>, !.expl = FALSE]
-        [] t.k = "DistinctOn" -> [m EXCEPT !.ord = <<>>, !.dons = Append(m.dons, m.prevsort), !.prevsort = <<>>, !.expl = FALSE]
+        [] t.k \in {"Aggregate", "Distinct", "Union"} -> [m EXCEPT !.ord = <<>>, !.prevsort = <<>>, !.expl = FALSE, !.reset = TRUE]
+        [] t.k = "DistinctOn" -> [m EXCEPT !.ord = <<>>, !.dons = Append(m.dons, m.prevsort), !.prevsort = <<>>, !.expl = FALSE, !.reset = TRUE]
         [] t.k = "Join" -> [m EXCEPT !.ord = IF t.side \in {"Inner", "Left"} THEN m.ord ELSE <<>>, !.prevsort = <<>>,
                                      !.expl = IF t.side \in {"Inner", "Left"} THEN m.expl ELSE FALSE]
         \* a Sort of this SELECT that is still in effect is the order at the take.  Without one, the sort the lowering embedded
@@ -168,11 +168,13 @@ MeanSteps(ts, m, menv) ==
         \* when a group follows: then only the takes carry it) and goes before an order inherited from the CTE.  (With a
         \* Sort of this SELECT in effect a different embedded sort is stale or leaked - findings F33, F47, F56 - and not
         \* what the statement is ordered by.)  The order in effect afterwards stays what the query itself establishes.
-        [] t.k = "Take" -> LET o == IF ~m.expl /\ t.part = <<>> /\ t.keys # <<>> THEN CanonKeys(t.keys, menv.R, menv.A) ELSE m.ord
+        \* After an aggregate / de-duplication / union of this SELECT the order is reset: a sort still embedded in a later take
+        \* dates from before the reset (sort a | aggregate .. | take 3: F33's stale sort) and is not the order in effect.
+        [] t.k = "Take" -> LET o == IF ~m.expl /\ ~m.reset /\ t.part = <<>> /\ t.keys # <<>> THEN CanonKeys(t.keys, menv.R, menv.A) ELSE m.ord
                            IN [m EXCEPT !.takes = Append(m.takes, o), !.prevsort = <<>>]
         [] OTHER -> [m EXCEPT !.prevsort = <<>>],
       menv)
-MeanPipe(ts, menv) == MeanSteps(ts, [ord |-> <<>>, takes |-> <<>>, dons |-> <<>>, prevsort |-> <<>>, expl |-> FALSE], menv)
+MeanPipe(ts, menv) == MeanSteps(ts, [ord |-> <<>>, takes |-> <<>>, dons |-> <<>>, prevsort |-> <<>>, expl |-> FALSE, reset |-> FALSE], menv)
 
 RECURSIVE MeanCtes(_, _)
 MeanCtes(ctes, menv) ==
